@@ -338,6 +338,8 @@ pub struct WorldA {
     pub rcpu: RefZ80,
     pub rbus: RBus,
     pub steps: usize,
+    /// the two memories may differ (a step was executed by one side only, or diverged)
+    pub dirty: bool,
 }
 
 pub struct StepOutcome {
@@ -357,13 +359,18 @@ impl WorldA {
         let mut cpu = Z80::default();
         state.to_impl(&mut cpu);
         let rcpu = state.to_ref();
-        WorldA { cpu, bus: SimBus::new(out.clone()), rcpu, rbus: RBus { out, ev: vec![], t: 0 }, steps: 0 }
+        WorldA { cpu, bus: SimBus::new(out.clone()), rcpu, rbus: RBus { out, ev: vec![], t: 0 }, steps: 0, dirty: false }
     }
 
     /// Re-initialises both CPUs and the line schedule for an independent case on the same memories.
     pub fn reset_case(&mut self, state: &CpuState, lines: Vec<u8>, io_seed: u64, bb_seed: u64) {
         state.to_impl(&mut self.cpu);
         self.rcpu = state.to_ref();
+        if self.dirty {
+            let (a, b) = (&self.bus.out.mem, &mut self.rbus.out.mem);
+            b.copy_from_slice(a);
+            self.dirty = false;
+        }
         for o in [&mut self.bus.out, &mut self.rbus.out] {
             o.lines = lines.clone();
             o.samples = 0;
@@ -399,6 +406,7 @@ impl WorldA {
             (false, false)
         };
         if info.ambiguous.is_some() {
+            self.dirty = true;
             let post = CpuState::from_ref(&self.rcpu);
             return StepOutcome { info, ambiguous: true, div: None, timing_div: None, pre, post, ev_impl: vec![], sampled, lines };
         }
@@ -447,6 +455,15 @@ impl WorldA {
         }
         let mut div = None;
         let mut timing_div = None;
+        if what.is_some() {
+            self.dirty = true;
+        }
+        // Q after a repeating block iteration: hardware behaviour not established by the model's
+        // sources and normally unobservable; the reference adopts the implementation's value so that a
+        // self-modifying block copy cannot turn it into a later flag divergence.
+        if info.page == Page::ED && info.variant == 1 && (0xB0..=0xBB).contains(&info.opcode) {
+            self.rcpu.q = post_i.q;
+        }
         if let Some(w) = what {
             // build the single-instruction scenario: pre-state + every byte either side read before writing it
             let mut single = Scenario::new();
